@@ -388,3 +388,27 @@ def install_dict_of_lists(I):
     I.models['contains.fallback'] = contains
     I.models['getitem:SymDictOfLists'] = getitem
     I.models['setitem:SymDictOfLists'] = setitem
+
+
+# ------------------------------------------------------------------------------------------------
+# zip of symbolic sequences of scalars: a sequence of tuples, as long as the shortest argument
+
+def zip_symbolic(ctx, args, kwargs):
+    I = ctx.I
+    if len(args) == 1 and isinstance(args[0], StarArg):
+        return ZipStar(args[0].seq)
+    lists = [I.lib.concrete_iter(ctx, a) for a in args]
+    if all(l is not None for l in lists):
+        return [tuple(t) for t in zip(*lists)]
+    if not args or kwargs or not all(isinstance(a, SymSeq) and a.width is None and a.shape is None for a in args):
+        raise OutOfSubset("zip of %r" % (args,))
+    n = args[0].length
+    for a in args[1:]:
+        n = _z3.If(a.length < n, a.length, n)
+    out = SymSeq(n, [a.cols[0] for a in args], len(args), 'list', 'zipped')
+    out.shape = ('t', [('s', a.cols[0].range()) for a in args])
+    return out
+
+
+def install_zip(I):
+    I.models['zip'] = zip_symbolic
